@@ -109,8 +109,10 @@ package common
 //@   loop 0 decreases len(scope.SubScopes) - rangeindex
 //@ end
 
-//@ typeinv VarInfoList: forall(k, 0, len(self.VarVec), self.VarVec[k] != nil)
+//@ typeinv VarInfoList: len(self.VarVec) >= 1 && forall(k, 0, len(self.VarVec), self.VarVec[k] != nil)
 //@ typeinv ScopeInfo: nonnilvals(self.LocVarMap)
+//@ typeinv ScopeInfo: forall(k, 0, len(self.SubScopes), self.SubScopes[k] != nil)
+//@ typeinv VarInfo: nonnilvals(self.SubMaps)
 
 // ---- C05: visibility of a local declaration at a use position ----
 // Lua: a local is visible after its declaration, not inside its own initialiser; "local function f" sees itself.
@@ -196,4 +198,22 @@ package common
 
 //@ func (*ScopeInfo).AddLocVar
 //@   sweep C01
+//@ end
+
+// ---- C19: document-symbol outline of local declarations ----
+//@ func (*ScopeInfo).FindAllLocalVal
+//@   props C19
+//@   sweep C01
+//@   at call append#2 before assert[variable-range-starts-at-its-declaration] oneLocInfo.ReferFunc == nil ==>
+//@        oneSymbol.Loc.StartLine == oneLocInfo.Loc.StartLine && oneSymbol.Loc.StartColumn == oneLocInfo.Loc.StartColumn
+//@   at call append#0 before assert[plain-variable-range-is-its-declaration] oneSymbol.Loc == oneLocInfo.Loc
+//@   ensures[nested-blocks-are-visited] old(len(scope.LocVarMap)) == 0 && len(gScopes) == 0 && old(len(scope.SubScopes)) >= 1 ==> hits("FindAllLocalVal#0") >= 1
+//@   loop range:scope.SubScopes invariant rangeindex >= -1 && scopeInfos != nil && (rangeindex >= 0 ==> len(scopeInfos) >= 1) && hits("FindAllLocalVal#0") == 0 && !has(scopeInfos, 0)
+//@   loop range:gScopes invariant hits("FindAllLocalVal#0") == 0 && scopeInfos != nil && !has(scopeInfos, 0) && (len(gScopes) == 0 && old(len(scope.SubScopes)) >= 1 ==> len(scopeInfos) >= 1)
+//@   loop range:scope.LocVarMap invariant hits("FindAllLocalVal#0") == 0 && scopeInfos != nil && !has(scopeInfos, 0)
+//@        && (old(len(scope.LocVarMap)) == 0 && len(gScopes) == 0 && old(len(scope.SubScopes)) >= 1 ==> len(scopeInfos) >= 1 && iterpos() == 0)
+//@   loop range:oneLocInfo.SubMaps invariant !has(scopeInfos, 0) && scopeInfos != nil && oneLocInfo != nil && oneLocInfo.ReferFunc == nil
+//@        && oneSymbol.Loc.StartLine == oneLocInfo.Loc.StartLine && oneSymbol.Loc.StartColumn == oneLocInfo.Loc.StartColumn
+//@   loop range:scopeInfos invariant !has(scopeInfos, 0) && hits("FindAllLocalVal#0") >= 0 && (hits("FindAllLocalVal#0") == 0 ==> iterpos() == 0)
+//@        && (old(len(scope.LocVarMap)) == 0 && len(gScopes) == 0 && old(len(scope.SubScopes)) >= 1 && iterpos() == 0 ==> len(scopeInfos) >= 1)
 //@ end
